@@ -13,6 +13,14 @@ Lemma link_accept w t frac :
                                (Gen.Weights.ess_total QOps (sumsq w)) frac = ratio_ok w t frac.
 Proof. reflexivity. Qed.
 Lemma link_structure :
-  Gen.Weights.starts_at_top_and_steps_down = true /\ Gen.Weights.same_mask_for_samples_and_weights = true
+  Gen.Weights.starts_at_top_and_steps_down = true /\ Gen.Weights.stops_at_grid_index_zero_whatever_the_ratio = true
+  /\ Gen.Weights.same_mask_for_samples_and_weights = true
   /\ Gen.Weights.normalises_input_and_trimmed = true.
+Proof. repeat split. Qed.
+(** volume_variation has the shape vvgen K g of Proofs/Volume.v: normalised weights, rows centred at the weighted mean, their weighted
+    covariance, K = inverse of that matrix (regularised by 1e-6 trace only when the rank test fires), g = clip to +-1e6, and the value is
+    half the root of vvgen *)
+Lemma link_volume_shape :
+  Gen.Weights.volume_metric_is_half_root_of_squared_normalised_weights_times_clipped_deviation_of_mahalanobis_distance = true
+  /\ Gen.Weights.volume_metric_regularises_only_when_rank_deficient_by_trace_times_1e_6 = true.
 Proof. repeat split. Qed.
